@@ -215,6 +215,11 @@ fn gate_case(c: &(u64, Vec<Setter>, u8), obs: &mut Obs) -> CaseResult {
     for v in 0..256 {
         ensure_eq!(decode(&bytes[v]), missing, "vector {} of InterruptDescriptorTable::new()", v);
     }
+    {
+        let d: Box<InterruptDescriptorTable> = Box::new(Default::default());
+        let db = unsafe { &*(&*d as *const _ as *const [[u8; 16]; 256]) };
+        ensure!(db == bytes, "InterruptDescriptorTable::default() differs from new()");
+    }
     // pick an entry: a general one or a typed exception field
     let v = 32 + (*vec_sel as usize % 224);
     let mut model = missing;
